@@ -19,8 +19,66 @@ func init() {
 // genC19 draws from the scenario families of the other properties (every
 // outcome: success, failure, rejection, timeout, cancellation at every step)
 // and, for the growth oracle, repeats an execution many times.
+// genC19Nested: per-attempt timeouts below hedges and retries, with attempts
+// that outlive their limit - the shapes in which one attempt's timeout, the
+// hedge's cancellation of the losers and the retries of a timed-out attempt
+// meet. What is judged is only what C19 states: nothing keeps running.
+func genC19Nested(r *Rnd, t Tier) *Case {
+	unit := ms
+	sc := &Scenario{Family: "c19nested"}
+	L := time.Duration(r.Range(4, 20)) * unit
+	to := PolicySpec{Kind: KTimeout, Limit: L}
+	h := PolicySpec{Kind: KHedge, MaxHedges: r.Range(1, 2), Delay: time.Duration(r.Range(1, 25)) * unit}
+	if r.P(0.3) {
+		h.Cancel = genCond(r, false)
+	}
+	rp := PolicySpec{Kind: KRetry, MaxRetries: r.Range(1, 3), DelayKind: DelayFixed, Delay: time.Duration(r.Range(0, 8)) * unit}
+	sc.Policies = []PolicySpec{h, rp, to, {Kind: KTimeout, Limit: time.Duration(r.Range(30, 80)) * unit}}
+	sc.Stacks = [][]int{pick(r, []int{0, 1, 2}, []int{0, 2}, []int{1, 0, 2}, []int{3, 0, 2}, []int{0, 1, 2}, []int{3, 0, 1, 2})}
+	var ops []Op
+	for i, n := 0, r.Range(1, 3); i < n; i++ {
+		var s Script
+		for j, m := 0, r.Range(1, 5); j < m; j++ {
+			o := genOutcome(r, unit, pick(r, 0.3, 0.8))
+			o.Dur = pick(r, L/2, L-1, L, L+1, L*2, L*3, time.Duration(r.Range(0, 40))*unit)
+			o.Coop = pick(r, CoopReturn, CoopReturn, CoopResult, CoopLate, CoopIgnore)
+			if o.Coop == CoopLate {
+				o.IgnoreFor = time.Duration(r.Range(1, 10)) * unit
+			}
+			s.Outcomes = append(s.Outcomes, o)
+		}
+		sc.Scripts = append(sc.Scripts, s)
+		ops = append(ops, Op{Kind: "exec", Script: i, Entry: r.Intn(8), Ctx: pick(r, CtxNone, CtxBackground)})
+	}
+	if r.Bool() {
+		// the second attempt wins while the first, timed out, sits in its retry delay
+		sc.Stacks = [][]int{pick(r, []int{0, 1, 2}, []int{0, 1, 2}, []int{3, 0, 1, 2})}
+		hp, rpp := &sc.Policies[0], &sc.Policies[1]
+		hp.MaxHedges = 1
+		hp.Delay = time.Duration(r.Range(1, int(L/unit))) * unit
+		hp.Cancel = Cond{Preds: []int{POdd}}
+		rpp.Delay = time.Duration(r.Range(3, 10)) * unit
+		rpp.Handle, rpp.Abort = Cond{}, Cond{}
+		win := L - hp.Delay + time.Duration(r.Range(0, int(rpp.Delay/unit)))*unit
+		if win < 0 {
+			win = 0
+		}
+		for i := range sc.Scripts {
+			sc.Scripts[i].Outcomes = append([]Outcome{
+				{Dur: L * 3, Coop: pick(r, CoopReturn, CoopResult, CoopIgnore), Err: EA},
+				{Dur: win, Result: 1},
+			}, sc.Scripts[i].Outcomes...)
+		}
+	}
+	sc.Clients = []Client{{Ops: ops}}
+	terminating(sc)
+	return &Case{Sc: sc}
+}
+
 func genC19(r *Rnd, t Tier) *Case {
-	switch r.Intn(13) {
+	switch r.Intn(15) {
+	case 13, 14:
+		return genC19Nested(r, t)
 	case 10, 11, 12:
 		c := genC18(r, t)
 		c.Sc.Family = "c19adapter"
@@ -101,16 +159,39 @@ func checkC19(c *checkCtx) {
 	// (d) library goroutines end shortly after the execution they belong to
 	if !res.Out.Quiescent.IsZero() {
 		late := res.Out.Quiescent.Sub(res.Out.ClientsEnd)
-		var userTail time.Duration
+		// time after the last execution returned during which library goroutines were still alive
+		// although no invocation of the user's function or fallback was in progress
+		ce, q := res.Out.ClientsEnd.Sub(res.Start), res.Out.Quiescent.Sub(res.Start)
+		var idle time.Duration
+		inflight := 0
+		last := time.Duration(0)
+		span := func(from, to time.Duration) {
+			if from < ce {
+				from = ce
+			}
+			if to > q {
+				to = q
+			}
+			if inflight == 0 && to > from {
+				idle += to - from
+			}
+		}
 		for i := range res.Log.Ev {
 			e := &res.Log.Ev[i]
-			if e.Kind == EvFnEnd || e.Kind == EvFallbackFnEnd {
-				if d := e.T - res.Out.ClientsEnd.Sub(res.Start); d > userTail {
-					userTail = d
+			span(last, e.T)
+			last = e.T
+			switch e.Kind {
+			case EvFnStart, EvFallbackFn:
+				inflight++
+			case EvFnEnd, EvFallbackFnEnd:
+				if inflight > 0 {
+					inflight--
 				}
 			}
 		}
-		if late > userTail {
+		span(last, q)
+		userTail := late - idle
+		if idle > 0 {
 			// where did the last library goroutine to finish wait?
 			where := "?"
 			var lastExit time.Time
@@ -123,7 +204,7 @@ func checkC19(c *checkCtx) {
 			if i := indexByte(where, ':'); i >= 0 {
 				where = where[:i]
 			}
-			c.fail("C19.lingering", "waited-in:"+where, fmt.Sprintf("library goroutines kept running until %v after the last execution returned although user code ran for only %v of that time", late, userTail))
+			c.fail("C19.lingering", "waited-in:"+where, fmt.Sprintf("library goroutines kept running until %v after the last execution returned; user code was in progress for only %v of that time", late, userTail))
 		}
 	}
 	// (e) HTTP: responses the adapter obtained but did not hand to the caller are closed
